@@ -15,6 +15,7 @@ EXPLANATION = (
     "(R5); lookup descends exactly when the key is absent from the node's dictionary - key membership, not truthiness - and returns the "
     "recorded value or None (R3); _q_metadata is not a field of any ast node class and QMetaData constructs no AST node, so ast.dump "
     "(fields only), calc_ast_hash and the AST handed to executors cannot see it (R4)."
+    " (R6) no operation of a stream edits nodes of a query AST in place (C11.R2 re-evaluated): the nodes that carry _q_metadata and the child lists their copies share are never rewritten."
 )
 NOT_DECIDED = "that ast.dump / copy.copy behave as documented (trusted stdlib)."
 
